@@ -429,6 +429,31 @@ def make_imaging(spec, focus_factor=1.0):
     return spec
 
 
+def remote_stop(spec, u, rho_min=2.5):
+    """Variant of an infinite-conjugate imaging lens whose stop is a plane in air far in front of it (1.15 .. 3.15 front
+    focal lengths): the exit pupil then lies beyond the image surface (telecentric-like layouts), a class the plain
+    generator almost never reaches.  Deterministic in (spec, u); aperture and field are re-fitted to the new beam."""
+    import copy
+    if spec['obj']['t'] != INF or spec['ap']['type'] != 'EPD':
+        return spec
+    try:
+        f = float(parax_sys(spec).f2())
+    except (ZeroDivisionError, OverflowError, ValueError):
+        return spec
+    if not (math.isfinite(f) and 1e-2 < abs(f) < 1e4):
+        return spec
+    t = copy.deepcopy(spec)
+    for q in t['surfs']:
+        q['stop'] = False
+    semi = 0.5 * t['ap']['value']
+    t['surfs'].insert(0, dict(type='standard', R=INF, k=0.0, coef=None, norm=None, t=round((1.15 + 2.0 * u) * abs(f), 6),
+                              mat={'kind': 'air'}, dx=0.0, dy=0.0, rx=0.0, ry=0.0, ap=None, coat=None, stop=True, hd=semi))
+    for fd in t['fields']:
+        fd['y'] = fd['y'] * 0.5
+    t = fit_beam(t, rho_min, rounds=4)
+    return make_imaging(t)
+
+
 def beam_heights(spec):
     ps = parax_sys(spec)
     ya, _ = ps.marginal(spec['ap']['type'], spec['ap']['value'])
